@@ -235,6 +235,8 @@ impl TypeChecker {
             size: 1,
             constraints: BTreeMap::new(),
         });
+        #[cfg(sylt_verif)]
+        crate::verif_trace::emit(format!("{{\"e\":\"push\",\"id\":{}}}", ty_id.0));
         ty_id
     }
 
@@ -1420,6 +1422,14 @@ impl TypeChecker {
         for (con, span) in self.types[b].constraints.clone().iter() {
             self.types[a].constraints.insert(con.clone(), *span);
         }
+        #[cfg(sylt_verif)]
+        crate::verif_trace::emit(format!(
+            "{{\"e\":\"union\",\"root\":{},\"child\":{},\"size\":{},\"n\":{}}}",
+            a,
+            b,
+            self.types[a].size,
+            self.types[a].constraints.len()
+        ));
     }
 
     fn unify_option(
@@ -1713,6 +1723,20 @@ impl TypeChecker {
                 )
             })
             .collect();
+        #[cfg(sylt_verif)]
+        if crate::verif_trace::enabled() {
+            let keys: Vec<String> = self
+                .find_node(new_ty)
+                .constraints
+                .keys()
+                .map(|c| format!("{:?}", format!("{:?}", c)))
+                .collect();
+            crate::verif_trace::emit(format!(
+                "{{\"e\":\"cons\",\"id\":{},\"cs\":[{}]}}",
+                new_ty.0,
+                keys.join(",")
+            ));
+        }
 
         let ty = self.find_type(old_ty);
         self.find_node_mut(new_ty).ty = match ty {
@@ -1819,10 +1843,23 @@ impl TypeChecker {
     }
 
     fn add_constraint(&mut self, a: TyID, span: Span, constraint: Constraint) {
+        #[cfg(sylt_verif)]
+        let key = format!("{:?}", constraint);
         self.find_node_mut(a)
             .constraints
             .entry(constraint)
             .or_insert_with(|| span);
+        #[cfg(sylt_verif)]
+        if crate::verif_trace::enabled() {
+            let root = self.find(a);
+            crate::verif_trace::emit(format!(
+                "{{\"e\":\"con\",\"id\":{},\"root\":{},\"c\":{:?},\"n\":{}}}",
+                a.0,
+                root.0,
+                key,
+                self.types[root.0].constraints.len()
+            ));
+        }
     }
 
     fn add(&mut self, span: Span, ctx: TypeCtx, a: TyID, b: TyID) -> TypeResult<()> {
